@@ -41,16 +41,68 @@ ARCH = get_arch("example")
 STOPPED = DebugState.STOPPED
 REGS_HEX = "443322118877665500ccbbaa"  # r0, r1, r2 little endian
 
-# ---- seams: module level names the code already resolves at call time -----
-rsp_mod.Queue = SimQueue
-rsp_mod.Lock = SimLock
-transport_mod.socket = wire.SocketModule
-transport_mod.select = wire.SelectModule
-transport_mod.Thread = SimThread
-_qmod = types.SimpleNamespace(Queue=SimQueue, Empty=real_queue.Empty,
-                              Full=real_queue.Full)
-client_mod.queue = _qmod
-client_mod.Thread = SimThread
+# ---- seams -----------------------------------------------------------------
+# The three modules resolve Queue / Lock / Thread / socket / select through
+# their own module globals.  One simulated run models one process life time:
+# the modules are executed afresh at the start of every run (so module and
+# class level state starts from import state and cannot leak from one run
+# into the next), with the stdlib modules they import replaced by shims that
+# hand out the simulator's versions - also to code that runs at import time.
+import importlib  # noqa: E402
+import queue as _real_queue_mod  # noqa: E402
+import select as _real_select  # noqa: E402
+import socket as _real_socket  # noqa: E402
+import threading as _real_threading  # noqa: E402
+
+
+class Shim(types.ModuleType):
+    def __init__(self, real, **over):
+        super().__init__(real.__name__)
+        self.__dict__["_real"] = real
+        self.__dict__.update(over)
+
+    def __getattr__(self, name):
+        return getattr(self.__dict__["_real"], name)
+
+
+SHIMS = {
+    "queue": Shim(_real_queue_mod, Queue=SimQueue),
+    "threading": Shim(_real_threading, Lock=SimLock, Thread=SimThread),
+    "socket": Shim(_real_socket, socket=wire.SimSocket),
+    "select": Shim(_real_select, select=wire.SelectModule.select),
+}
+GDB_MODULES = ["ppci.binutils.dbg.gdb.rsp", "ppci.binutils.dbg.gdb.transport",
+               "ppci.binutils.dbg.gdb.client"]
+_CODE = {}
+
+
+def fresh_process_state():
+    global rsp_mod, transport_mod, client_mod
+    import ppci.binutils.dbg.gdb as pkg
+
+    saved = {k: sys.modules.get(k) for k in SHIMS}
+    sys.modules.update(SHIMS)
+    try:
+        new = []
+        for name in GDB_MODULES:
+            old = sys.modules[name]
+            if name not in _CODE:
+                with open(old.__file__) as f:
+                    _CODE[name] = compile(f.read(), old.__file__, "exec")
+            mod = types.ModuleType(name)
+            mod.__file__ = old.__file__
+            mod.__package__ = "ppci.binutils.dbg.gdb"
+            sys.modules[name] = mod
+            setattr(pkg, name.rsplit(".", 1)[1], mod)
+            exec(_CODE[name], mod.__dict__)
+            new.append(mod)
+    finally:
+        for k, v in saved.items():
+            if v is None:
+                sys.modules.pop(k, None)
+            else:
+                sys.modules[k] = v
+    rsp_mod, transport_mod, client_mod = new
 
 SPECIAL = ["$", "#", "}", "*", "+", "-", "'", "\x03", "\x04", "\n", "]"]
 PLAIN = list("0123456789abcdefOKSTmg:;,. ")
@@ -73,7 +125,7 @@ BENIGN_FOR_DRIVER = {"c2p_corrupt_body", "c2p_corrupt_csum", "spurious_nack",
 def gen_payload(ch, maxlen=12, long_ok=False):
     if long_ok and ch.chance(1, 3, "longpayload"):
         # bursts well beyond any plausible buffer size (memory dumps)
-        n = ch.pick([40, 130, 260, 520, 1100], "longlen")
+        n = ch.pick([40, 130, 260, 300, 600], "longlen")
     else:
         n = ch.weighted([2, 4, 4, 3, 3, 2, 2, 1, 1, 1, 1, 1, 1][: maxlen + 1],
                         "plen")
@@ -101,7 +153,7 @@ def gen_config(ch):
     cfg["horizon_us"] = ch.pick([0, 1000], "horizon")
     cfg["weighted_sched"] = ch.weighted([1, 1], "wsched")
     cfg["ack_delay_us"] = ch.pick([0, 2000, 50000], "ackdelay")
-    cfg["long_payloads"] = bool(ch.chance(1, 8, "longrun"))
+    cfg["long_payloads"] = bool(ch.chance(1, 24, "longrun"))
     lp = cfg["long_payloads"]
     ncallers = 1 + ch.weighted([4, 3, 1], "ncallers")
     cfg["callers"] = []
@@ -980,6 +1032,7 @@ def judge_driver(w, complete, closed, clean, died, got, probe):
 def run_one(ch, render=False):
     cfg = gen_config(ch)
     w = World(ch, cfg)
+    fresh_process_state()
     main = SimThread(target=w.main, name="main")
     w.sim.spawn(main)
     verdict = w.sim.run()
@@ -1028,7 +1081,7 @@ class Spec:
     selftest_samples = 200
     fresh_samples = 60
     shrink_runs = 1200
-    slow_run_s = 0.05  # per run; above this the workers are unpinned
+    slow_step_s = 0.0005  # wall time per scheduler step above which workers are unpinned
     shrink_wall_s = 90
     run_one = staticmethod(run_one)
     classify = staticmethod(classify)
